@@ -11,12 +11,16 @@ na_reasons = {}
 nap = os.path.join(V, "conf", "not_applicable.json")
 if os.path.exists(nap):
     na_reasons = json.load(open(nap))
+hold = {}
+hp = os.path.join(V, "conf", "hold.json")
+if os.path.exists(hp):
+    hold = json.load(open(hp))
 checks, na = [], []
 for pr in props:
     pid = pr["id"]
     c = confs.get(pid)
-    if not c or c.get("disabled"):
-        na.append({"property_id": pid, "reason": na_reasons.get(pid, "check not built yet in this session; not claimed")})
+    if not c or c.get("disabled") or pid in hold:
+        na.append({"property_id": pid, "reason": hold.get(pid) or na_reasons.get(pid, "check not built yet in this session; not claimed")})
         continue
     checks.append({
         "property_id": pid,
